@@ -86,6 +86,14 @@ func genFunction(prog *ssa.Program, cs *Contracts, fn *ssa.Function, fc *FuncCon
 		env0[names[i]] = v
 		c.recordParam(p.Name(), v)
 	}
+	for _, np := range fc.NaNParams {
+		t, ok := env0[np].(T)
+		if !ok {
+			panic(vcErr("nan parameter %s is not a scalar", np))
+		}
+		c.nanSyms = append(c.nanSyms, t.S)
+		c.note("NaN mode: parameter " + np + " is NaN; every ordered comparison involving it is false (IEEE 754), arithmetic propagates it")
+	}
 	for _, g := range fc.Ghosts {
 		var v Val
 		switch g[1] {
